@@ -23,10 +23,59 @@ func die(format string, args ...any) {
 	os.Exit(1)
 }
 
+// canon renames the local variables of evaluateBinaryOperation to the names the facts are written in: what matters is their
+// role (the value of the first / second evaluated operand, the three same-type flags), not what the maintainers call them
+var canon = strings.NewReplacer()
+
 func src(n ast.Node) string {
 	var b strings.Builder
 	printer.Fprint(&b, fset, n)
-	return strings.Join(strings.Fields(b.String()), " ")
+	return canon.Replace(strings.Join(strings.Fields(b.String()), " "))
+}
+
+// detectNames finds the locals by role: the first and the second `x, err := evaluateExpression(...)`, and the flags defined
+// as `a.Number != nil && b.Number != nil` (resp. Boolean, String)
+func detectNames(fn *ast.FuncDecl) {
+	var operands []string
+	flags := map[string]string{}
+	ast.Inspect(fn.Body, func(n ast.Node) bool {
+		as, ok := n.(*ast.AssignStmt)
+		if !ok || as.Tok != token.DEFINE || len(as.Rhs) != 1 {
+			return true
+		}
+		if call, ok := as.Rhs[0].(*ast.CallExpr); ok && len(as.Lhs) == 2 {
+			if id, ok := call.Fun.(*ast.Ident); ok && id.Name == "evaluateExpression" {
+				if v, ok := as.Lhs[0].(*ast.Ident); ok {
+					operands = append(operands, v.Name)
+				}
+			}
+		}
+		if be, ok := as.Rhs[0].(*ast.BinaryExpr); ok && be.Op == token.LAND && len(as.Lhs) == 1 {
+			var b strings.Builder
+			printer.Fprint(&b, fset, be)
+			text := b.String()
+			if v, ok := as.Lhs[0].(*ast.Ident); ok {
+				switch {
+				case strings.Count(text, ".Number != nil") == 2:
+					flags[v.Name] = "bothOperandsAreNumbers"
+				case strings.Count(text, ".Boolean != nil") == 2:
+					flags[v.Name] = "bothOperandsAreBooleans"
+				case strings.Count(text, ".String != nil") == 2:
+					flags[v.Name] = "bothOperandsAreStrings"
+				}
+			}
+		}
+		return true
+	})
+	var pairs []string
+	if len(operands) >= 2 {
+		pairs = append(pairs, operands[0], "leftOperandValue", operands[1], "rightOperandValue")
+	}
+	for from, to := range flags {
+		pairs = append(pairs, from, to)
+	}
+	// (identity pairs are harmless; names that are substrings of one another do not occur among Go identifiers chosen by role)
+	canon = strings.NewReplacer(pairs...)
 }
 
 func parse(path string) *ast.File {
@@ -66,11 +115,11 @@ func operandOrder(e ast.Expr) string {
 
 // resultOf canonicalises the value expression of `return <value>, nil`
 func resultOf(e ast.Expr) string {
-	if id, ok := e.(*ast.Ident); ok {
-		if id.Name == "rightOperandValue" {
+	if _, ok := e.(*ast.Ident); ok {
+		if src(e) == "rightOperandValue" {
 			return "right"
 		}
-		if id.Name == "leftOperandValue" {
+		if src(e) == "leftOperandValue" {
 			return "left"
 		}
 	}
@@ -112,7 +161,7 @@ func ifChain(s *ast.IfStmt, out *[]guardResult) bool {
 	if !ok || len(ret.Results) != 2 || src(ret.Results[1]) != "nil" {
 		return false
 	}
-	*out = append(*out, guardResult{strings.TrimPrefix(guard.Name, "bothOperandsAre"), resultOf(ret.Results[0])})
+	*out = append(*out, guardResult{strings.TrimPrefix(src(guard), "bothOperandsAre"), resultOf(ret.Results[0])})
 	switch e := s.Else.(type) {
 	case nil:
 		return true
@@ -134,6 +183,7 @@ func main() {
 	root := os.Args[1]
 	ev := parse(filepath.Join(root, "evaluator.go"))
 	fn := findFunc(ev, "evaluateBinaryOperation")
+	detectNames(fn)
 	var lazy []string
 	sameTypeGuard := false
 	var cases []string
@@ -200,8 +250,8 @@ func main() {
 	var guards []string
 	ast.Inspect(fn, func(n ast.Node) bool {
 		if as, ok := n.(*ast.AssignStmt); ok && len(as.Lhs) == 1 {
-			if id, ok := as.Lhs[0].(*ast.Ident); ok && strings.HasPrefix(id.Name, "bothOperandsAre") {
-				guards = append(guards, fmt.Sprintf("(%q, %q)", strings.TrimPrefix(id.Name, "bothOperandsAre"), src(as.Rhs[0])))
+			if id, ok := as.Lhs[0].(*ast.Ident); ok && strings.HasPrefix(src(id), "bothOperandsAre") {
+				guards = append(guards, fmt.Sprintf("(%q, %q)", strings.TrimPrefix(src(id), "bothOperandsAre"), src(as.Rhs[0])))
 			}
 		}
 		return true
